@@ -62,7 +62,8 @@ ROOT_PACKAGES = ["harper-ls", "harper-cli", "harper-wasm", "harper-core"]
 
 
 def _prefix_in(name, prefixes):
-    return any(name == p or name.startswith(p + "::") for p in prefixes)
+    n = norm(name)
+    return any(n == norm(p) or n.startswith(norm(p) + "::") for p in prefixes)
 
 
 def _extend_allow(g, allow):
@@ -435,16 +436,17 @@ def _save_paths(ck, p):
     for cn, sites in sorted(callers.items()):
         fn = p.fns[cn]
         ck.saw(fn)
-        if cn not in exp:
+        if norm(cn) not in {norm(k) for k in exp}:
             ck.refuted(rule, "save_dict-caller:%s" % cn, fn.span, "save_dict is called from a function other than save_user_dictionary/save_file_dictionary")
             continue
         pv = Prov(fn)
         for bi, t in sites:
-            if exp[cn]:
-                if _derives_from_field(fn, pv, t["args"][0], exp[cn]):
-                    ck.proved(rule, "path:%s" % cn, fn.loc(t["ln"]), "destination derives from Config.%s" % exp[cn])
+            expn = {norm(k): v for k, v in exp.items()}
+            if expn[norm(cn)]:
+                if _derives_from_field(fn, pv, t["args"][0], expn[norm(cn)]):
+                    ck.proved(rule, "path:%s" % norm(cn), fn.loc(t["ln"]), "destination derives from Config.%s" % expn[norm(cn)])
                 else:
-                    ck.undecided(rule, "path:%s" % cn, fn.loc(t["ln"]), "could not trace the destination to Config.%s" % exp[cn])
+                    ck.undecided(rule, "path:%s" % norm(cn), fn.loc(t["ln"]), "could not trace the destination to Config.%s" % expn[norm(cn)])
             else:
                 # through get_file_dict_path(url) = config.file_dict_path.join(file_dict_name(url))
                 leaves = flatten(pv.trace_operand(t["args"][0]))
